@@ -810,6 +810,22 @@ func (c *dagCase) eval(u *gengotypes.Universe, root, prefix string) {
 }
 
 func loadDags(cases []*dagCase) {
+	loadDagsFset(cases, false)
+	// and once more, loaded by a caller that brings its own file set (packages.Config.Fset): the answers of that load
+	// are the ones judged when they differ from the first — they are kept whenever a case came out differently
+	first := make([]string, len(cases))
+	for i, c := range cases {
+		first[i] = c.out
+	}
+	loadDagsFset(cases, true)
+	for i, c := range cases {
+		if c.out != first[i] && strings.Contains(first[i], " ORACLE:") && !strings.Contains(c.out, " ORACLE:") {
+			c.out = first[i] // the plain load already failed its oracle: that failure is the one reported
+		}
+	}
+}
+
+func loadDagsFset(cases []*dagCase, own bool) {
 	fixLoadEnv()
 	root, err := os.MkdirTemp("", "vhdag")
 	if err != nil {
@@ -856,7 +872,12 @@ func loadDags(cases []*dagCase) {
 	old := os.Stdout
 	devnull, _ := os.OpenFile(os.DevNull, os.O_WRONLY, 0)
 	os.Stdout = devnull
-	u, err := gengotypes.Load(pats, func(cfg *packages.Config) { cfg.Dir = root })
+	u, err := gengotypes.Load(pats, func(cfg *packages.Config) {
+		cfg.Dir = root
+		if own {
+			cfg.Fset = token.NewFileSet()
+		}
+	})
 	os.Stdout = old
 	devnull.Close()
 	if err != nil {
@@ -1295,7 +1316,7 @@ func init() {
 			Name: "imports", Quick: 300, Thorough: 2000, New: func() Case { return &dagCase{} },
 			Gen:      func(r *Rng, i int) Case { return genDag(r) },
 			BatchRun: dagBatch, ShrinkBudget: 30, MaxShrinks: 4,
-			Rule: "acyclic import graphs of 1–6 module packages (some also importing std packages; in a third of the graphs every file has a `//line` directive ahead of its declaration, naming a file beside the source, a file in another package's directory, or an absolute path elsewhere; in a fifth of the graphs some package directories hold a dangling symbolic link, which the go tool ignores and the directory hash stumbles over), loaded from 1–6 roots listed in either order, all graphs of a run in one types.Load; compared with the registration model: every import table entry resolved or not; oracle: Imports() total, non-nil and identical to Universe.Package(path), SourceDir() = directory of the files, LocateInPackage(position) = the package, for the start of the file and for its last declaration",
+			Rule: "acyclic import graphs of 1–6 module packages (some also importing std packages; in a third of the graphs every file has a `//line` directive ahead of its declaration, naming a file beside the source, a file in another package's directory, or an absolute path elsewhere; in a fifth of the graphs some package directories hold a dangling symbolic link, which the go tool ignores and the directory hash stumbles over), loaded from 1–6 roots listed in either order, all graphs of a run in one types.Load — and in a second one by a caller that supplies its own token.FileSet through packages.Config; compared with the registration model: every import table entry resolved or not; oracle: Imports() total, non-nil and identical to Universe.Package(path), SourceDir() = directory of the files, LocateInPackage(position) = the package, for the start of the file and for its last declaration",
 		},
 		{
 			Name: "closure", New: func() Case { return &closureCase{} },
